@@ -115,6 +115,9 @@ class EstimationMethod:
         if record_provenance is None:
             record_provenance = True
 
+        if mutation_rate is not None and not mutation_rate > 0.0:
+            raise ValueError("Mutation rate must be positive")
+
         if recombination_rate is not None:
             raise NotImplementedError(
                 "Using the recombination clock is not currently supported"
